@@ -63,7 +63,14 @@ class Describer:
 
     def perenv(self, v, dim, level, eff):
         if isinstance(v, dict):
-            return {k: self.num(x, dim, level, eff) for k, x in v.items()}
+            out = {k: self.num(x, dim, level, eff) for k, x in v.items()}
+            # documented shorthand: one entry for several environments, "a, b": value
+            ks = [k for k in v if k != "default"]
+            if len(ks) >= 2 and v[ks[0]] == v[ks[1]] and self.rng.random() < 0.5:
+                val = out.pop(ks[0])
+                out.pop(ks[1])
+                out[self.rng.choice(["%s,%s", "%s, %s", " %s ,%s "]) % (ks[0], ks[1])] = val
+            return out
         return self.num(v, dim, level, eff)
 
     def rename(self, kind, d):
